@@ -15,6 +15,7 @@ from . import common as C
 
 PID = "C05"
 META = {
+    "ready": True,
     "category": "proof",
     "technique": "Lean 4 invariant proof over a step-level transition system (all interleavings, any number of threads) + deterministic-schedule correspondence with the real BiasedRc",
     "level_text": "Theorem rc_safe (SteelVerif/C05/Props.lean): for every schedule - every history of create/clone/drop/move/unique/unwrap/count/register/merge/exit operations by any number of threads and every interleaving of their atomic shared accesses - the model of steel-rc's biased reference counting never accesses the object after the free, frees it at most once and only when no reference is held, and grants exclusive access only to a sole holder. The model is hand-written; it is tied to crates/steel-rc/src/lib.rs on every run by executing the real BiasedRc under cfg(steel_verif) yield points on the same schedules (corpus, all operation-level histories of a given depth, random step-level schedules) and comparing the observable protocol state after every line.",
